@@ -508,9 +508,13 @@ type unit struct {
 	run func(w *worker)
 }
 
+var ballast []byte // never touched (no resident memory); only raises the collector's trigger
+
 func main() {
-	debug.SetGCPercent(-1)
-	debug.SetMemoryLimit(256 << 20)
+	// tiny live heap, huge allocation rate: the ballast makes the collector run once per ~200 MB of
+	// garbage instead of once per ~4 MB (stop-the-world pauses dominate on a loaded machine)
+	ballast = make([]byte, 200<<20)
+	debug.SetGCPercent(100)
 	run := ev.Start("C06", "exploration")
 	maxLen := run.Pick(3, 4)
 
